@@ -654,6 +654,22 @@ func (b *builder) genDecls() {
 			b.add(d)
 		default:
 			d := &Decl{Kind: k, Name: c.genName(t, b.names, k, typeStyles), Doc: b.doc(k), Ann: b.ann(k)}
+			if b.fi > 0 && rapid.IntRange(0, 3).Draw(t, k+".twin?") == 0 {
+				// a declaration of the same kind and name as one in an earlier file (another package)
+				var twins []string
+				for _, f := range b.p.Files[:b.fi] {
+					for _, od := range f.Decls {
+						if od.Kind == k {
+							twins = append(twins, od.Name)
+						}
+					}
+				}
+				if len(twins) > 0 {
+					if n := twins[rapid.IntRange(0, len(twins)-1).Draw(t, k+".twin")]; b.names.take(n) {
+						d.Name = n
+					}
+				}
+			}
 			nf := rapid.IntRange(0, 6).Draw(t, k+".nfields")
 			if k == "union" {
 				nf = rapid.IntRange(1, 4).Draw(t, k+".nfields")
